@@ -1,6 +1,7 @@
 package hclient
 
 import (
+	"crypto/tls"
 	"errors"
 	"fmt"
 	"net"
@@ -18,6 +19,7 @@ import (
 	"github.com/bluenviron/gortsplib/v5/pkg/base"
 	"github.com/bluenviron/gortsplib/v5/pkg/description"
 	"github.com/bluenviron/gortsplib/v5/pkg/format"
+	"github.com/bluenviron/gortsplib/v5/pkg/headers"
 	"github.com/bluenviron/gortsplib/v5/pkg/liberrors"
 )
 
@@ -128,7 +130,11 @@ func localDesc(ms []MediaSpec) *description.Session {
 		if m.Codec != "h264" && m.Codec != "" {
 			typ = description.MediaTypeAudio
 		}
-		d.Medias = append(d.Medias, &description.Media{Type: typ, Control: m.Control, IsBackChannel: m.Back, Formats: formatsOf(m)})
+		md := &description.Media{Type: typ, Control: m.Control, IsBackChannel: m.Back, Formats: formatsOf(m)}
+		if m.Secure {
+			md.Profile = headers.TransportProfileSAVP
+		}
+		d.Medias = append(d.Medias, md)
 	}
 	return d
 }
@@ -338,7 +344,11 @@ func runScript(sc *Script) *Outcome {
 		r.baseResp.Store(r.seenResp.Load())
 		r.baseReq.Store(r.seenReq.Load())
 	}
-	us := "rtsp://"
+	scheme := "rtsp"
+	if sc.Cfg.Secure {
+		scheme = "rtsps"
+	}
+	us := scheme + "://"
 	if sc.Cfg.Creds {
 		us += "user:pass@"
 	}
@@ -353,7 +363,7 @@ func runScript(sc *Script) *Outcome {
 		udpT = time.Duration(sc.Cfg.UDPms) * time.Millisecond
 	}
 	c := &gortsplib.Client{
-		Scheme: "rtsp", Host: srv.host,
+		Scheme: scheme, Host: srv.host, TLSConfig: &tls.Config{InsecureSkipVerify: true}, //nolint:gosec
 		ReadTimeout: rt, WriteTimeout: rt, InitialUDPReadTimeout: udpT,
 		AnyPortEnable: sc.Cfg.AnyPort, RequestBackChannels: sc.Cfg.BackCh,
 		OnResponse:        func(*base.Response) { r.seenResp.Add(1) },
